@@ -2,7 +2,10 @@
 
 from __future__ import annotations
 
+import base64
+import os
 import random
+import re
 import traceback
 
 from ..common import Result
@@ -44,6 +47,8 @@ def observe_method(image, override=None):
     out = image._renderer(image._render_image, None, **image._check_style_args(kw))
     vt = VTerm(6, 6, "konsole")
     vt.feed(out)
+    m = re.search(r"\x1b\]1337;File=[^:]*:([A-Za-z0-9+/=]*)", out)
+    observe_method.last_payload = base64.b64decode(m.group(1)) if m else None
     n = len(vt.placements) + (0 if vt.placements else len(vt.images))
     H = image.rendered_height
     if n == H and H > 1:
@@ -75,6 +80,19 @@ def run_history(seed, res, env, steps):
         shape.append(classes.index(parent))
         classes.append(cls)
     src = Image.new("RGB", (3, 3), (9, 99, 199))
+    src_file = None
+    if rnd.random() < 0.5:
+        # a source backed by a readable file (a PIL image opened from it): for iterm2 the
+        # read-from-file setting then decides what a WHOLE render transmits
+        import tempfile
+
+        fd, src_file = tempfile.mkstemp(suffix=".png", dir="/var/tmp", prefix="vf-c20-")
+        os.close(fd)
+        # (one pixel: never more pixels than the render, so sending the file is "reasonable")
+        Image.new("RGB", (1, 1), (9, 99, 199)).save(src_file, "PNG")
+        src = Image.open(src_file)
+        with open(src_file, "rb") as f:
+            file_bytes = f.read()
     model = {}  # (node key, setting) -> value ; node key = class or ("i", index)
     anim_global = [2 * 2**20]
     ops = []
@@ -231,12 +249,22 @@ def run_history(seed, res, env, steps):
                     if got != want:
                         fail("method-used", "%s renders with %s, effective method is %s" % (nm, got, want))
                         return
-                    if step % 5 == 0:
+                    ov = None
+                    if step % 5 == 0 or (src_file and step % 2 == 0):
                         ov = rnd.choice(["lines", "whole"])
                         got = observe_method(target, ov)
                         res.count("render methods observed")
                         if got != ov:
                             fail("method-override", "%s with method=%s override rendered %s" % (nm, ov, got))
+                            return
+                    if src_file and family == "iterm2" and (ov or str(eff(n, "method")).lower()) == "whole":
+                        # the render just made was a WHOLE render of a file-backed RGB source
+                        # that needs no manipulation: the file itself iff read-from-file is
+                        # in effect for this class / instance
+                        payload = observe_method.last_payload
+                        res.count("read-from-file effect observed")
+                        if (payload == file_bytes) != bool(eff(n, "read_from_file")):
+                            fail("read-from-file-effect", "%s: WHOLE render (%s) %s the source file although read_from_file is effectively %r" % (nm, "method=%s override" % ov if ov else "effective method", "transmits" if payload == file_bytes else "does not transmit", eff(n, "read_from_file")))
                             return
                     if target is not n:
                         target.close()
@@ -244,6 +272,9 @@ def run_history(seed, res, env, steps):
     finally:
         for im in insts:
             im.close()
+        if src_file:
+            src.close()
+            os.unlink(src_file)
         for c in (KittyImage, ITerm2Image, BlockImage):
             c.set_render_method(None)
             c.forced_support = False
